@@ -26,6 +26,20 @@
        [enter_run], [enter_reset], [close_trigger], [do_step] at every pc inside a trigger,
        [run_finish], [do_step_run] at RT_G_fin / RT_G_cs) are exactly that interpreter on the
        program derived from the regenerated code.
+    Kinds of obligation.  [script_table], [expand_table]: the script / expansion computed from the
+    regenerated files compared with the spelled-out term (a pin of the DERIVED script, by vm_compute).
+    [script_refused], [script_moves_along_table], [expand_total], [api_prog_total]: exhaustive over the
+    finite domain 5 states x 5 triggers.  [tie_*]: equalities between the model's segment and the
+    interpreter on the derived program, for ALL model states (case analysis on [st_fsm] / the run task /
+    the reset options, both sides reduced by conversion).  Side conditions, all of them about states the
+    model never reaches: [close_trigger] from Running only with `_run_finished` set (Imp.aclose has
+    waited); Z_G1 only for a reset that carries a statement; Z_WaitRunTask / C_WaitRunTask only from
+    Finished; for the program counters BEFORE the state change the continuation is the one of the
+    CURRENT [st_fsm] (the library reads the source state once, at trigger time; under the lifecycle
+    lock only `finish` could change it in between, and reset is refused while running).
+    NOT proved here (left for a later stage): the generic lemma that the continuation stored by [run]
+    when it parks at p is [after_pc p] of the whole program (it holds by construction when the program
+    counters of a program are pairwise distinct); [hook_order_finish] assumes no Continue plugin.
     Not modelled: a hook / wait that raises or is cancelled (the model has no such path);
     `except BaseException` around `await self._task_run` is required syntactically (without it
     the expansion fails), its catching of the awaiting task's own cancellation is not modelled. *)
@@ -537,3 +551,312 @@ Theorem expand_table :
   expand Closed TClose = Some [].
 Proof. vm_compute. repeat split. Qed.
 
+(** ------------------------------------------------------------------ 4. agreement with Life/Model.v, for ALL states *)
+
+Ltac split_state s :=
+  destruct s; repeat match goal with f : fsm |- _ => destruct f end.
+
+(** compute the script / program (closed terms over t, c) by vm_compute, then compare with the
+    model by conversion (never normalise through [release] / [acquire]: the terms explode) *)
+Ltac eval_progs :=
+  repeat match goal with
+  | |- context [script ?a ?b] => let k := eval vm_compute in (script a b) in change (script a b) with k
+  | |- context [api_prog ?t ?c ?tr ?src] =>
+    let k := eval vm_compute in (api_prog t c tr src) in change (api_prog t c tr src) with k
+  | |- context [api_cont ?t ?c ?tr ?src ?p] =>
+    let k := eval vm_compute in (api_cont t c tr src p) in change (api_cont t c tr src p) with k
+  end.
+Ltac tie := unfold api_trigger; eval_progs; reflexivity.
+
+(** [initialize] (Imp.aopen -> StateMachine.aopen -> initialize): refusal iff no row; otherwise the first segment *)
+Theorem tie_enter_start : forall s t c, enter_start s t c = api_trigger t c TInitialize s.
+Proof. intros s t c; split_state s; tie. Qed.
+
+Theorem tie_enter_run : forall s t c, enter_run s t c = api_trigger t c TRun s.
+Proof. intros s t c; split_state s; tie. Qed.
+
+Theorem tie_enter_reset : forall s t o, enter_reset s t o = api_trigger t (CReset o) TReset s.
+Proof. intros s t [[x|] [a|] [b|] [d|]]; split_state s; tie. Qed.
+
+(** [close]: every source state but Created (next theorem); from Running the model calls it only
+    once `_run_finished` is set (Imp.aclose has waited), and then the wait of
+    on_close_while_running -> wait_for_run_finish passes at once *)
+Theorem tie_close_trigger : forall s t, st_fsm s <> Created ->
+  (st_fsm s = Running -> run_finished s = Some true) ->
+  close_trigger s t = api_trigger t CClose TClose s.
+Proof.
+  intros s t H1 H2; split_state s; cbn in H1, H2; try congruence;
+    try (rewrite (H2 eq_refl)); try (match goal with r : option rpc |- _ => destruct r end); tie.
+Qed.
+
+(** the model has no suspension at the `start` hook of a close() from Created (unreachable: Imp.aclose
+    runs after aopen): the same program with that one gate erased *)
+Fixpoint ungate (p : pc) (k : list (prim pc)) : list (prim pc) :=
+  match k with
+  | [] => []
+  | PGate q :: k' => if pc_eqb p q then k' else PGate q :: ungate p k'
+  | x :: k' => x :: ungate p k'
+  end.
+Theorem tie_close_trigger_created : forall s t, st_fsm s = Created ->
+  exists k, api_prog t CClose TClose Created = Some k /\
+            close_trigger s t = api_embed t CClose TClose (run (ungate S_G1 k) s).
+Proof.
+  intros s t H; eexists; split; [vm_compute; reflexivity|].
+  split_state s; cbn in H; try congruence; tie.
+Qed.
+
+(** resumption of a task parked inside a trigger *)
+Theorem tie_step_initialize : forall s t c p, find_task (tasks s) t = Some (c, p) ->
+  In p [S_G1; S_G2; S_G3] ->
+  do_step s t = api_resume t c TInitialize p (api_cont t c TInitialize Created p) s.
+Proof.
+  intros s t c p H Hp; unfold do_step; rewrite H; clear H.
+  cbn in Hp; destruct Hp as [<-|[<-|[<-|[]]]]; split_state s; tie.
+Qed.
+
+Theorem tie_step_run : forall s t c p, find_task (tasks s) t = Some (c, p) ->
+  In p [R_WaitStarted; R_G] ->
+  do_step s t = api_resume t c TRun p (api_cont t c TRun Initialized p) s.
+Proof.
+  intros s t c p H Hp; unfold do_step; rewrite H; clear H.
+  cbn in Hp; destruct Hp as [<-|[<-|[]]]; eval_progs; [|reflexivity].
+  destruct s; cbn [api_resume Model.started_ev].
+  match goal with |- context [if ?b then _ else _] => destruct b end; reflexivity.
+Qed.
+
+(** reset: before the state change the continuation is the one of the CURRENT source state
+    (Finished: on_exit_finished awaits the run task; Initialized: no exit callback) *)
+Theorem tie_step_reset_before : forall s t o p, find_task (tasks s) t = Some (CReset o, p) ->
+  (st_fsm s = Initialized \/ st_fsm s = Finished) ->
+  (p = Z_G1 /\ o_stmt o <> None) \/ p = Z_G1b \/ (p = Z_WaitRunTask /\ st_fsm s = Finished) ->
+  do_step s t = api_resume t (CReset o) TReset p (api_cont t (CReset o) TReset (st_fsm s) p) s.
+Proof.
+  intros s t o p H Hs Hp; unfold do_step; rewrite H; clear H.
+  destruct o as [[x|] [a|] [b|] [d|]]; destruct Hp as [[-> Hn]|[->| [-> Hn]]]; try (cbn in Hn; congruence);
+    split_state s; cbn in Hs; destruct Hs; try congruence; try (cbn in Hn; congruence);
+    try (match goal with r : option rpc |- _ => destruct r end); tie.
+Qed.
+
+Theorem tie_step_reset_after : forall s t o p src, find_task (tasks s) t = Some (CReset o, p) ->
+  (src = Initialized \/ src = Finished) -> In p [Z_G3; Z_G4] ->
+  do_step s t = api_resume t (CReset o) TReset p (api_cont t (CReset o) TReset src p) s.
+Proof.
+  intros s t o p src H Hs Hp; unfold do_step; rewrite H; clear H.
+  destruct o as [[x|] [a|] [b|] [d|]]; cbn in Hp; destruct Hp as [<-|[<-|[]]]; destruct Hs as [-> | ->];
+    split_state s; tie.
+Qed.
+
+Theorem tie_step_close_wait_task : forall s t, find_task (tasks s) t = Some (CClose, C_WaitRunTask) ->
+  do_step s t = api_resume t CClose TClose C_WaitRunTask (api_cont t CClose TClose Finished C_WaitRunTask) s.
+Proof.
+  intros s t H; unfold do_step; rewrite H; clear H.
+  split_state s; try (match goal with r : option rpc |- _ => destruct r end); tie.
+Qed.
+
+Theorem tie_step_close_after : forall s t p src, find_task (tasks s) t = Some (CClose, p) ->
+  src <> Closed -> In p [C_G3; C_G4] ->
+  do_step s t = api_resume t CClose TClose p (api_cont t CClose TClose src p) s.
+Proof.
+  intros s t p src H Hs Hp; unfold do_step; rewrite H; clear H.
+  cbn in Hp; destruct Hp as [<-|[<-|[]]]; destruct src; try congruence; split_state s; tie.
+Qed.
+
+(** Imp.aclose awaits Callback.wait_for_run_finish itself before the trigger: the same regenerated method *)
+Definition wait_for_run_finish_prims : option (list (prim pc)) :=
+  match expand_call ("wait_for_run_finish", [], []) with
+  | Some ms => concat_opt (map (api_micro 0 CClose TClose) ms)
+  | None => None
+  end.
+
+Theorem tie_close_wait_run_finished : forall s t,
+  exists a r, wait_for_run_finish_prims = Some [PWait a r C_WaitRunFinished] /\
+  (find_task (tasks s) t = Some (CClose, C_WaitRunFinished) ->
+     do_step s t = if r s then close_trigger s t else s) /\
+  (st_fsm s = Running ->
+     enter_close s t = let s1 := publish s PEndAll in
+                       match a s1 with
+                       | WPass => close_trigger s1 t
+                       | WPark => set_pc s1 t CClose C_WaitRunFinished
+                       | WRaise x => raise_out s1 t CClose x
+                       end).
+Proof.
+  intros s t; do 2 eexists; split; [vm_compute; reflexivity|]; split.
+  - intros H; unfold do_step; rewrite H; clear H. destruct s; cbn.
+    match goal with r : option bool |- _ => destruct r as [[|]|] end; reflexivity.
+  - intros H; unfold enter_close. destruct s; cbn in H; subst; cbn.
+    match goal with r : option bool |- _ => destruct r as [[|]|] end; reflexivity.
+Qed.
+
+(** ---- the run task: the `finally` of Callback._run and Callback._finish *)
+
+Definition rpc_num (p : rpc) : nat :=
+  match p with RT_New => 0 | RT_Created => 1 | RT_G_start => 2 | RT_WaitChild => 3 | RT_G_end => 4 | RT_G_fin => 5 | RT_G_cs => 6 end.
+
+Fixpoint after_rpc (p : rpc) (k : list (prim rpc)) : list (prim rpc) :=
+  match k with
+  | [] => []
+  | PGate q :: k' => if Nat.eqb (rpc_num p) (rpc_num q) then k' else after_rpc p k'
+  | _ :: k' => after_rpc p k'
+  end.
+
+Definition run_micro (m : micro) : option (list (prim rpc)) :=
+  match m with
+  | USetState d => Some [PDo (fun s => set_st_fsm s d)]
+  | UHook h kw =>
+    match hook_of h, kw with
+    | Some HFinished, [(a, VContext)] =>
+      if String.eqb a "context" then
+        Some [PDo (fun s => let s3 := log_hook s HFinished None None in cont_finished s3 (length (cont_plugins s3))); PGate RT_G_fin]
+      else None
+    | Some HChangeState, [(a, VContext); (b, VState)] =>
+      if String.eqb a "context" && String.eqb b "state_name" then Some [PDo change_state_hook; PGate RT_G_cs] else None
+    | _, _ => None
+    end
+  | _ => None
+  end.
+
+(** what the run task does after the `async with awith.run` block ended (normally or not):
+    the finally of _run, then _finish; the trigger inside try/finally *)
+Definition run_tail (src : fsm) : option (list (prim rpc)) :=
+  match find_method callback_methods "_run", find_method callback_methods "_finish" with
+  | Some r, Some f =>
+    match m_body r, m_body f with
+    | STryFinally (SAWith h [(c, ASelfContext)] (SEventSet (TLocal e1))) (SSeq (SEventSet (TLocal e2)) (SAwaitSelf fin)),
+      SSeq SRunArgNone (STryFinally (SAwaitMachine tr) (SEventSet (TSelf rf))) =>
+      if String.eqb h "run" && String.eqb c "context" && String.eqb e1 "started" && String.eqb e2 "started"
+         && String.eqb fin "_finish" && String.eqb tr "finish" && String.eqb rf "_run_finished"
+         && match m_params r with [p] => String.eqb p "started" | _ => false end
+      then
+        let pre := [PDo (fun s => set_started_ev s true); PDo (fun s => set_run_arg s None)] in
+        let post := [PDo (fun s => set_run_finished s (Some true))] in
+        match script src TFinish with
+        | None => Some (pre ++ post)                 (* MachineError: finally, then the task ends with it *)
+        | Some _ =>
+          match expand src TFinish with
+          | Some ms => match concat_opt (map run_micro ms) with Some k => Some (pre ++ k ++ post) | None => None end
+          | None => None
+          end
+        end
+      else None
+    | _, _ => None
+    end
+  | _, _ => None
+  end.
+
+Definition run_embed (r : state * outc rpc) : state :=
+  match r with
+  | (s, KPark p _) => set_runt s (Some p)
+  | (s, _) => set_runt s None
+  end.
+
+Theorem tie_run_finish : forall s,
+  exists k, run_tail (st_fsm s) = Some k /\ run_finish s = run_embed (run k s).
+Proof.
+  intros s; split_state s; eexists; (split; [vm_compute; reflexivity|]); reflexivity.
+Qed.
+
+Theorem tie_step_run_task : forall s p, runt s = Some p -> In p [RT_G_fin; RT_G_cs] ->
+  exists k, run_tail Running = Some k /\ do_step_run s = run_embed (run (after_rpc p k) s).
+Proof.
+  intros s p H Hp; eexists; split; [vm_compute; reflexivity|].
+  unfold do_step_run; rewrite H; clear H.
+  cbn in Hp; destruct Hp as [<-|[<-|[]]]; split_state s; tie.
+Qed.
+
+(** ------------------------------------------------------------------ 5. what a plugin observes *)
+
+(** run a program to its end, every gate released and every wait satisfied at once *)
+Fixpoint run_all {P} (k : list (prim P)) (s : state) : state :=
+  match k with
+  | [] => s
+  | PDo f :: k' => run_all k' (f s)
+  | _ :: k' => run_all k' s
+  end.
+
+Fixpoint hooks_of (tr : list event) : list (hook * fsm) :=
+  match tr with
+  | [] => []
+  | EvHook h :: r => hooks_of r ++ [(h_hook h, h_fsm h)]
+  | _ :: r => hooks_of r
+  end.
+
+(** the hooks one trigger calls, oldest first, each with the lifecycle state it sees
+    (no helper of the model reads the trace: it is emptied first so that only the new events remain) *)
+Definition hook_order {P} (k : list (prim P)) (s : state) : list (hook * fsm) :=
+  hooks_of (trace (run_all k (set_trace s []))).
+
+Definition api_hook_order (t : nat) (c : call) (tr : trig) (s : state) : option (list (hook * fsm)) :=
+  match api_prog t c tr (st_fsm s) with Some k => Some (hook_order k s) | None => None end.
+
+Theorem hook_order_initialize : forall s t c,
+  api_hook_order t c TInitialize s =
+  match st_fsm s with
+  | Created => Some [(HStart, Created); (HChangeScript, Created); (HInitRun, Initialized); (HChangeState, Initialized)]
+  | _ => None
+  end.
+Proof. intros s t c; split_state s; vm_compute; reflexivity. Qed.
+
+Theorem hook_order_run : forall s t c,
+  api_hook_order t c TRun s = match st_fsm s with Initialized => Some [(HChangeState, Running)] | _ => None end.
+Proof. intros s t c; split_state s; vm_compute; reflexivity. Qed.
+
+Theorem hook_order_reset : forall s t o,
+  api_hook_order t (CReset o) TReset s =
+  match st_fsm s with
+  | Initialized | Finished =>
+    Some ((HReset, st_fsm s) :: (match o_stmt o with Some _ => [(HChangeScript, st_fsm s)] | None => [] end)
+          ++ [(HInitRun, Initialized); (HChangeState, Initialized)])
+  | _ => None
+  end.
+Proof. intros s t [[x|] [a|] [b|] [d|]]; split_state s; vm_compute; reflexivity. Qed.
+
+Theorem hook_order_close : forall s t,
+  api_hook_order t CClose TClose s =
+  match st_fsm s with
+  | Created => Some [(HStart, Created); (HChangeScript, Created); (HClose, Closed); (HChangeState, Closed)]
+  | Closed => Some []                     (* internal transition: after_state_change returns early *)
+  | _ => Some [(HClose, Closed); (HChangeState, Closed)]
+  end.
+Proof. intros s t; split_state s; vm_compute; reflexivity. Qed.
+
+(** stated for a state without registered Continue plugins (their built-in on_finished
+    implementation, [cont_finished], publishes but calls no hook and does not touch the state) *)
+Theorem hook_order_finish : forall s, cont_plugins s = [] ->
+  match run_tail (st_fsm s) with Some k => Some (hook_order k s) | None => None end =
+  match st_fsm s with
+  | Running => Some [(HFinished, Finished); (HChangeState, Finished)]
+  | _ => Some []
+  end.
+Proof. intros s H; split_state s; cbn in H; subst; vm_compute; reflexivity. Qed.
+
+(** ------------------------------------------------------------------ 6. refusal (C15) and moves (C01) *)
+
+Theorem run_refused_unless_initialized : forall s t c,
+  (st_fsm s <> Initialized -> script (st_fsm s) TRun = None /\ enter_run s t c = refuse s t c) /\
+  (st_fsm s = Initialized -> script (st_fsm s) TRun <> None /\ st_fsm (enter_run s t c) = Running).
+Proof.
+  intros s t c; split; intros H.
+  - assert (E : script (st_fsm s) TRun = None) by (apply script_refused; destruct (st_fsm s); tauto).
+    split; [exact E|]. rewrite tie_enter_run; unfold api_trigger; rewrite E; reflexivity.
+  - rewrite H; split; [vm_compute; discriminate|].
+    destruct s; cbn in H; subst; reflexivity.
+Qed.
+
+Theorem reset_refused_while_running : forall s t o, st_fsm s = Running ->
+  script (st_fsm s) TReset = None /\ enter_reset s t o = refuse s t (CReset o).
+Proof.
+  intros s t o H.
+  assert (E : script (st_fsm s) TReset = None) by (rewrite H; vm_compute; reflexivity).
+  split; [exact E|]. rewrite tie_enter_reset; unfold api_trigger; rewrite E; reflexivity.
+Qed.
+
+(** every state change of every script goes along a row of CONFIG, and there is exactly one per
+    accepted non-internal trigger, none for the internal one *)
+Theorem script_moves_along_table : forall src tr dest acts, script src tr = Some (dest, acts) ->
+  exists b, In (tr, src, dest, b) table /\
+  filter (fun a => match a with SetState _ => true | _ => false end) acts =
+  match dest with Some d => [SetState d] | None => [] end.
+Proof.
+  intros src tr dest acts H; destruct src, tr; vm_compute in H; try discriminate;
+    injection H as <- <-; eexists; (split; [|reflexivity]); cbn; tauto.
+Qed.
